@@ -130,16 +130,17 @@ def _gen_request(draws, spec, bundle, idx, profile, want_mut, tier="quick",
     if want_mut and (profile.get("force_mutation")
                      or rs.chance(1, 2, "opkind")):
         kind = "mutation"
-    gen = OpGen(rs, spec, max_depth=2 + rs.below(2, "depth"),
-                budget=8 + 8 * rs.below(3, "budget"))
-    op = gen.generate(kind)
-    req.gen = gen
     req.variant = "normal"
     req.preparsed = False
     if profile.get("variants") and rs.chance(1, 3, "variant"):
         req.variant = ("syntax", "validation", "variables", "opname",
                        "truncate", "flip", "preparsed")[
             rs.below(7, "variant_kind")]
+    gen = OpGen(rs, spec, max_depth=2 + rs.below(2, "depth"),
+                budget=8 + 8 * rs.below(3, "budget"),
+                features={"prefer_vars": req.variant == "variables"})
+    op = gen.generate(kind)
+    req.gen = gen
     if req.variant == "validation":
         where = op.sel
         where.insert(rs.below(len(where) + 1, "bad_at"), _bad_field())
@@ -257,6 +258,7 @@ def _bad_field():
 
 def _corrupt_variables(req, rs):
     cands = []
+    nested = []
     for name, t, dflt in req.op.vardefs:
         if name not in req.variables:
             continue
@@ -265,11 +267,19 @@ def _corrupt_variables(req, rs):
             cands.append((name, None))
         elif base in ("Int", "Stamp", "Color", "Inp"):
             cands.append((name, {"bad": 1}))
-        if t.startswith("["):
-            # a nested container carrying several errors of its own
+        # nested containers carrying several errors of their own
+        if t.startswith("[[") :
+            nested.append((name, [[1, 2], [None, "x", {"y": 1}]]))
+        elif t.startswith("[") and base == "Inp":
+            nested.append((name, [{"a": None, "c": ["NOPE", 5]},
+                                  {"a": "x", "zzz": 1}]))
+        elif t.startswith("["):
             cands.append((name, [None, {"bad": 1}, [], "x"]))
-        if base == "Inp" and not t.startswith("["):
-            cands.append((name, {"a": "x", "b": [1], "c": ["NOPE", 5, None]}))
+        elif base == "Inp":
+            nested.append((name, {"a": "x", "b": [1],
+                                  "c": ["NOPE", 5, None]}))
+    if nested and (not cands or rs.chance(1, 2, "corrupt_nested")):
+        cands = nested
     if not cands:
         return False
     name, val = cands[rs.below(len(cands), "corrupt_var")]
@@ -612,6 +622,13 @@ def _evaluate(res, prop, config, req, out, hooks):
                 ("C04", "C08", "C10"), "unexpected_exception",
                 (config, type(out.exc).__name__),
                 "entry point failed with %r" % (out.exc,)))
+            if req.op.kind == "mutation" and any(
+                    len(p) == 1 and k in ("err", "errx", "errs")
+                    for p, k in req.faults.items()):
+                V.append(Violation(
+                    ("C09",), "serial_continue", (config, "aborted"),
+                    "a root field failing with a resolver error aborted the "
+                    "whole mutation: %r" % (out.exc,)))
             return
         V.extend(oracles.check_response(("C04", "C08"), config, exp,
                                         out.result))
